@@ -324,11 +324,11 @@ def space(kind, tier):
         for tps in (1, 2, 4):
             for algo, cfg in algos:
                 for shape in ("single", "chain2", "chain3"):
-                    for profs in (("s1",), ("s2",), ("s3", "s1"), ("s1", "s2", "s3")):
+                    for profs in (("s1",), ("s2",), ("s3", "s1"), ("s1", "s2", "s3"), ("io2",), ("c1io1",), ("s1", "io2", "c1io1"), ("z", "io2")):
                         for arr in (0, 2):
                             for pr in ("Q", "I", "B"):
                                 combo = ((pr, arr, shape, profs),)
-                                need = sum({"s1": 1, "s2": 2, "s3": 3}[profs[i % len(profs)]] for i in range(len(f5.SHAPES[shape])))
+                                need = sum({"s1": 1, "s2": 2, "s3": 3, "io2": 2, "c1io1": 2, "z": 1}[profs[i % len(profs)]] for i in range(len(f5.SHAPES[shape])))
                                 out.append((algo, cfg, combo, tps, arr + need + 3, dict(small=0.25), need))
     return out
 
